@@ -25,6 +25,7 @@ type Collector struct {
 	extra      map[string]interface{}
 	excluded   map[string]int64
 	known      map[string]string // known-finding key -> what (still failing)
+	distinctBC int64             // distinct non-trivial cases counted by construction (enumerations)
 	notes      []string
 }
 
@@ -83,6 +84,15 @@ func (c *Collector) Sample(v interface{}) {
 	}
 }
 
+// Enumerated records n executed cases of an enumeration whose members are
+// pairwise distinct by construction, nontrivial of which satisfy the rule.
+func (c *Collector) Enumerated(n, nontrivial int64) {
+	c.mu.Lock()
+	c.evals += n
+	c.distinctBC += nontrivial
+	c.mu.Unlock()
+}
+
 func (c *Collector) Excluded(key string) {
 	c.mu.Lock()
 	c.excluded[key]++
@@ -135,6 +145,7 @@ type fileFormat struct {
 	Known      map[string]string      `json:"known_findings_hit"`
 	Notes      []string               `json:"notes"`
 	HashFile   string                 `json:"hash_file"`
+	DistinctBC int64                  `json:"distinct_by_construction"`
 }
 
 // Write stores the stats at path (JSON) and the hash set at path+".hashes"
@@ -155,9 +166,9 @@ func (c *Collector) Write(path string) error {
 		return err
 	}
 	ff := fileFormat{
-		Property: c.Property, Rule: c.Rule, Evals: c.evals, Nontrivial: len(hs),
+		Property: c.Property, Rule: c.Rule, Evals: c.evals, Nontrivial: len(hs) + int(c.distinctBC),
 		Classes: c.classes, Samples: c.samples, Extra: c.extra, Excluded: c.excluded,
-		Known: c.known, Notes: c.notes, HashFile: path + ".hashes",
+		Known: c.known, Notes: c.notes, HashFile: path + ".hashes", DistinctBC: c.distinctBC,
 	}
 	if ff.Samples == nil {
 		ff.Samples = []interface{}{}
